@@ -121,7 +121,62 @@ def _forest(fi):
     raise IndexError(fi)
 
 
+def _sym_rows(sym, nm):
+    sel = {"type": "select_one c", "name": nm, "label": "L"}
+    if sym == "S":
+        return [sel]
+    if sym == "M":
+        return [{"type": "select_multiple c", "name": nm, "label": "L"}]
+    if sym == "T":
+        return [{"type": "text", "name": nm, "label": "L"}]
+    if sym == "G":
+        return [{"type": "begin group", "name": nm, "label": "L"}, dict(sel, name=nm + "s"), {"type": "end group"}]
+    if sym == "R":
+        return [{"type": "begin repeat", "name": nm, "label": "L"}, dict(sel, name=nm + "s"), {"type": "end repeat"}]
+    if sym == "E":
+        return [{"type": "begin group", "name": nm, "label": "L"}, {"type": "end group"}]
+    raise ValueError(sym)
+
+
+def explicit_cases(tier):
+    """explicit row sequences for structures that need more nodes than the layout budget:
+    (1) a table-list group whose selects are separated by nested sections, (2) several rows with a `disabled` cell"""
+    import itertools
+
+    n = 4 if tier == "quick" else 5
+    for k in range(2, n + 1):
+        for seq in itertools.product("SMGRTE", repeat=k):
+            if not any(x in "SM" for x in seq) or not any(x in "GRE" for x in seq):
+                continue
+            for lab in (True, False):
+                rows = [{"type": "begin group", "name": "tl", "appearance": "table-list", **({"label": "TL"} if lab else {})}]
+                for i, x in enumerate(seq):
+                    rows += _sym_rows(x, f"n{i}")
+                rows.append({"type": "end group"})
+                rows.append({"type": "select_one c", "name": "after", "label": "L"})
+                yield {"k": "rows", "rows": rows, "what": "table-list"}
+    vals = [None, "yes", "no", "true()", "TRUE"]
+    for k in (2, 3) if tier == "quick" else (2, 3, 4):
+        for combo in itertools.product(vals, repeat=k):
+            if sum(1 for v in combo if v is not None) < 2:
+                continue
+            for wrap in (False, True):
+                rows = []
+                for i, v in enumerate(combo):
+                    r = {"type": "text", "name": f"d{i}", "label": "L"}
+                    if v is not None:
+                        r["disabled"] = v
+                    rows.append(r)
+                rows.append({"type": "text", "name": "keep", "label": "L"})
+                if wrap:
+                    rows = [{"type": "begin repeat", "name": "w", "label": "W"}, *rows, {"type": "end repeat"}]
+                yield {"k": "rows", "rows": rows, "what": "disabled"}
+
+
 def blocks(tier):
+    ne = sum(1 for _ in explicit_cases(tier))
+    for i in range(0, ne, 200):
+        yield ("rows", i, min(ne, i + 200))
     N = 4 if tier == "quick" else 5
     NI = 3 if tier == "quick" else 4
     for fi in range(sum(1 for _ in forests_upto(N, 3))):
@@ -131,6 +186,11 @@ def blocks(tier):
 
 
 def expand(block, tier):
+    if block[0] == "rows":
+        import itertools
+
+        yield from itertools.islice(explicit_cases(tier), block[1], block[2])
+        return
     forest = _forest(block[1])
     fj = forest_to_json(forest)
     if block[0] == "tree":
@@ -157,6 +217,8 @@ def required_outcomes(tier):
 # ---------------------------------------------------------------- IR -> rows ---------
 def build_rows(case):
     """rows (with 'first' question on top) for the case; names n0, n1, ... by node index"""
+    if case["k"] == "rows":
+        return [{"type": "integer", "name": "first", "label": "First"}, *[dict(r) for r in case["rows"]]], None
     forest = forest_from_json(case["f"])
     rows = [{"type": "integer", "name": "first", "label": "First"}]
     counter = [0]
@@ -421,7 +483,7 @@ def check_one(case):
     obs = O.Obs(out.xform)
     einst = expand_templates(einst)
     d = diff_trees(einst, obs_inst(obs.primary))
-    what = case["k"] + (":" + (case.get("sp") or ("cont" if "cont" in case else "row")) if case["k"] == "ins" else "")
+    what = case["k"] + (":" + (case.get("sp") or ("cont" if "cont" in case else "row")) if case["k"] == "ins" else "") + (":" + case["what"] if case.get("what") else "")
     if d:
         viol.append((f"instance-tree:{what}", d))
     d = diff_trees(ebody, obs_body(obs.body))
